@@ -28,6 +28,7 @@ from vf.vloop import VLoop  # noqa: E402
 
 use_repo()
 from nauyaca.protocol.response import GeminiResponse  # noqa: E402
+from vf.responses import shaped  # noqa: E402
 from nauyaca.security.pyopenssl_tls import create_pyopenssl_server_context  # noqa: E402
 from nauyaca.server import tls_protocol as tlsmod  # noqa: E402
 from nauyaca.server.protocol import GeminiServerProtocol  # noqa: E402
@@ -101,7 +102,7 @@ class PumpHarness:
 
         def handler(req):
             h.handler_calls += 1
-            return GeminiResponse(status=20, meta="application/octet-stream", body=h.body if h.body else None)
+            return shaped(20, "application/octet-stream", h.body if h.body else None)
 
         def factory():
             h.inner_created += 1
